@@ -5,7 +5,10 @@ import (
 	"go/constant"
 	"go/token"
 	"go/types"
+	"os"
+	"strconv"
 	"strings"
+	"time"
 
 	"golang.org/x/tools/go/ssa"
 
@@ -14,13 +17,16 @@ import (
 
 // Engine interprets SSA functions of one loaded program.
 type Engine struct {
-	P        *core.Program
+	P *core.Program
 	// FailReads makes every transport read primitive (io.ReadFull, io.CopyN, binary.Read) fork into "succeeds" and
 	// "fails after delivering fewer bytes than asked" (used where truncated input must be covered: C07)
 	FailReads bool
 	MaxDepth  int
-	MaxSteps int
-	MaxPaths int
+	MaxSteps  int
+	// RunBudget bounds the wall-clock time of one Run (all paths of one variant); when it is exceeded the run ends
+	// as undecided (which fails the obligation) instead of exploring an exponential number of paths for hours.
+	RunBudget time.Duration
+	MaxPaths  int
 	// Contract hooks: called for invoke-mode calls on symbolic interface values and for
 	// module functions the caller wants summarised instead of inlined. Return handled=false to fall through.
 	Contract func(p *Path, fr *Frame, call *ssa.CallCommon, callee *ssa.Function, args []Value) (Value, bool)
@@ -30,7 +36,13 @@ type Engine struct {
 
 // NewEngine returns an engine with default budgets.
 func NewEngine(P *core.Program) *Engine {
-	return &Engine{P: P, MaxDepth: 12, MaxSteps: 200000, MaxPaths: 4096}
+	budget := 300 * time.Second
+	if v := os.Getenv("ORYX_RUN_BUDGET_S"); v != "" {
+		if n, err := strconv.Atoi(v); err == nil && n > 0 {
+			budget = time.Duration(n) * time.Second
+		}
+	}
+	return &Engine{P: P, MaxDepth: 12, MaxSteps: 200000, MaxPaths: 4096, RunBudget: budget}
 }
 
 // Result is the outcome of one path.
@@ -55,8 +67,13 @@ func (e *Engine) Lazy(p *Path, name string, t types.Type) Value { return e.lazyV
 func (e *Engine) RunCustom(body func(p *Path) []Value) []Result {
 	var results []Result
 	var decisions []bool
+	start := time.Now()
 	for n := 0; n < e.MaxPaths; n++ {
-		p := &Path{E: e, decisions: append([]bool(nil), decisions...), Bind: map[string]map[int]bool{}, Assumed: map[string]bool{},
+		if e.RunBudget > 0 && time.Since(start) > e.RunBudget && len(results) > 0 {
+			results[len(results)-1].Path.abort("analysis budget of %v exceeded after %d paths", e.RunBudget, len(results))
+			return results
+		}
+		p := &Path{E: e, deadline: start.Add(e.RunBudget), decisions: append([]bool(nil), decisions...), Bind: map[string]map[int]bool{}, Assumed: map[string]bool{},
 			Atoms: map[string]*AtomInfo{}, Sinks: map[string]*Obj{}, Keep: map[string]Value{}, NilNames: map[string]bool{}}
 		ret := body(p)
 		results = append(results, Result{Path: p, Ret: ret})
@@ -83,8 +100,13 @@ type Setup func(p *Path) []Value
 func (e *Engine) Run(fn *ssa.Function, setup Setup) []Result {
 	var results []Result
 	var decisions []bool
+	start := time.Now()
 	for n := 0; n < e.MaxPaths; n++ {
-		p := &Path{E: e, decisions: append([]bool(nil), decisions...), Bind: map[string]map[int]bool{}, Assumed: map[string]bool{},
+		if e.RunBudget > 0 && time.Since(start) > e.RunBudget && len(results) > 0 {
+			results[len(results)-1].Path.abort("analysis budget of %v exceeded after %d paths of %s", e.RunBudget, len(results), core.QualName(fn))
+			return results
+		}
+		p := &Path{E: e, deadline: start.Add(e.RunBudget), decisions: append([]bool(nil), decisions...), Bind: map[string]map[int]bool{}, Assumed: map[string]bool{},
 			Atoms: map[string]*AtomInfo{}, Sinks: map[string]*Obj{}, Keep: map[string]Value{}, NilNames: map[string]bool{}}
 		args := setup(p)
 		ret := e.call(p, fn, args, 0)
@@ -154,6 +176,10 @@ func (e *Engine) call(p *Path, fn *ssa.Function, args []Value, depth int) []Valu
 		var next *ssa.BasicBlock
 		for _, in := range b.Instrs {
 			p.steps++
+			if p.steps&1023 == 0 && e.RunBudget > 0 && !p.deadline.IsZero() && time.Now().After(p.deadline) {
+				p.abort("analysis budget of %v exceeded inside one path of %s", e.RunBudget, core.QualName(fn))
+				return nil
+			}
 			if p.steps > e.MaxSteps {
 				p.abort("step budget exceeded")
 				return nil
